@@ -106,15 +106,12 @@ theorem C02_ops_mem (e : Expr) (fmt : Fmt) (addr : Expr) (base : Nat) (off : Int
 /-! ## statements and programs -/
 
 /-- **the part of the language the theorem covers, defect classes of C01 excluded** (decidable): every register read
-is owned, the tree is in the fixed-point fragment, and in none of *unary-in-place*, *narrow-reg-in-64*,
-*unary-32-in-64* -/
+is owned, the tree is in the fixed-point fragment, and not in *narrow-reg-in-64* -/
 def okF (o : List Nat) : CSt → Bool
   | .reg no long e =>
-    C01.leavesOwnedB o e && e.frag && e.fxOnly && !unaryInPlace e true && !narrowIn64 e long true (.reg no) &&
-      !neg32in64 e long
+    C01.leavesOwnedB o e && e.frag && e.fxOnly && !narrowIn64 e long true (.reg no)
   | .mem fmt base _ e =>
-    o.contains base && C01.leavesOwnedB o e && e.frag && e.fxOnly && !unaryInPlace e false &&
-      !narrowIn64 e fmt.isLong false .any && !neg32in64 e fmt.isLong
+    o.contains base && C01.leavesOwnedB o e && e.frag && e.fxOnly && !narrowIn64 e fmt.isLong false .any
 
 def ownersF (o : List Nat) : CSt → List Nat
   | .reg no _ _ => if o.contains no then o else no :: o
@@ -140,14 +137,14 @@ theorem stmtF_correct (c : CSt) (g g' : GenState) (hok : okF g.owners c = true) 
   | reg no long e =>
     simp only [CSt.emit] at h
     simp only [okF, Bool.and_eq_true, Bool.not_eq_true'] at hok
-    obtain ⟨⟨⟨⟨⟨h1, h2⟩, h3⟩, h4⟩, h5⟩, h6⟩ := hok
-    have hp : PreReg e no long g := ⟨C01.leavesOwnedB_sound h1, h2, h4, h5, h6⟩
+    obtain ⟨⟨⟨h1, h2⟩, h3⟩, h5⟩ := hok
+    have hp : PreReg e no long g := ⟨C01.leavesOwnedB_sound h1, h2, h5⟩
     exact ⟨C02_ops_reg e no long g g' hp h3 h, (setReg_correct e no long g g' hp h).2⟩
   | mem fmt base off e =>
     simp only [CSt.emit] at h
     simp only [okF, Bool.and_eq_true, Bool.not_eq_true'] at hok
-    obtain ⟨⟨⟨⟨⟨⟨h0, h1⟩, h2⟩, h3⟩, h4⟩, h5⟩, h6⟩ := hok
-    have hp : PreMem e fmt base g := ⟨by simpa using h0, C01.leavesOwnedB_sound h1, h2, h4, h5, h6⟩
+    obtain ⟨⟨⟨⟨h0, h1⟩, h2⟩, h3⟩, h5⟩ := hok
+    have hp : PreMem e fmt base g := ⟨by simpa using h0, C01.leavesOwnedB_sound h1, h2, h5⟩
     exact ⟨C02_ops_mem e fmt _ base off g g' rfl hp h3 h, (setMem_correct e fmt _ base off g g' rfl hp h).2⟩
 
 /-- a surface statement with what it compiles to -/
